@@ -299,8 +299,9 @@ namespace Givaro {
         if (a<0 && r) {
             // :GMPUintTDiv
             subin(q,(int64_t)1) ;
-            r = b - r ;
+            r = std::abs(b) - r ;
         }
+        if (b<0) negin(q);
 
         return q;
 #endif
